@@ -451,12 +451,13 @@ pub fn run(tier: Tier) -> ! {
             }
         }
     }
-    // garbage scenarios: garbage chunk alone then a telegram; telegram, garbage, telegram
+    // garbage scenarios: garbage chunk alone then a telegram; telegram(s), garbage, telegram
     let mut garbage_seqs: Vec<Vec<usize>> = vec![];
     for g in 0..4 {
         for a in 0..6 {
             garbage_seqs.push(vec![100 + g, a]);
             garbage_seqs.push(vec![a, 100 + g, a]);
+            garbage_seqs.push(vec![a, (a + 1) % 6, 100 + g, a]);
         }
     }
     let evals = AtomicU64::new(0);
@@ -476,7 +477,16 @@ pub fn run(tier: Tier) -> ! {
                 acc += l;
                 b.push(acc);
             }
-            vec![b]
+            // … and the variant in which the garbage arrives in the same chunk as the telegram(s) before it
+            // (only the telegram after the garbage arrives separately)
+            let mut out = vec![b.clone()];
+            if let Some(gpos) = seq.iter().position(|i| *i >= 100) {
+                if gpos > 0 {
+                    let glued: Vec<usize> = b.iter().copied().skip(gpos).collect();
+                    out.push(glued);
+                }
+            }
+            out
         } else {
             cut_sets(&lens, tier.pick(64, 160), tier.pick(12, 36))
         };
